@@ -631,11 +631,14 @@ def run_one(case):
                 if cplx_in:
                     Jb[:, i] = ((fp(x + 1j * h * e) - fp(x - 1j * h * e)) / (2 * h)).ravel()
             g = _mk(y0.shape, "C" if cplx_out else "R", 11)
-            gv = onp.asarray(g).ravel()
-            p, q = gv.real, (gv.imag if cplx_out else onp.zeros(n_out))
-            re = Ja.real.T @ p - Ja.imag.T @ q
-            im = Jb.imag.T @ q - Jb.real.T @ p
-            exp = (re + 1j * im) if cplx_in else re
+
+            def _expect(g_):
+                gv = onp.asarray(g_).ravel()
+                p, q = gv.real, (gv.imag if cplx_out else onp.zeros(n_out))
+                re = Ja.real.T @ p - Ja.imag.T @ q
+                im = Jb.imag.T @ q - Jb.real.T @ p
+                return (re + 1j * im) if cplx_in else re
+            exp = _expect(g)
             got_rev = None
             try:
                 vjp, val = make_vjp(f, x)
@@ -660,6 +663,12 @@ def run_one(case):
                         g_arr.flags.writeable = True
                 out.append((f"{label}|arg{a}", "N-frozen", frozen_ok, fr_det if frozen_ok else (fr_det if "writes" in fr_det else "cotangent / input changed by the call, or a second application of the same vjp function differs")))
                 got_rev = (got, g)
+                # C10: the SAME vjp function applied to a second, different cotangent answers for that cotangent (nothing remembered from the first application)
+                g2 = _mk(y0.shape, "C" if cplx_out else "R", 2)
+                got3 = onp.asarray(vjp(g2))
+                exp3 = _expect(g2)
+                err3 = float(onp.max(onp.abs(got3.ravel() - exp3))) if got3.shape == xs.shape and n_in else (0.0 if got3.shape == xs.shape else float("inf"))
+                out.append((f"{label}|arg{a}", "N-reuse", err3 <= TOL * (1 + (float(onp.max(onp.abs(exp3))) if n_in else 0.0)), f"second application with another cotangent: max error {err3:.2e}"))
                 ok_shape = got.shape == xs.shape
                 err = float(onp.max(onp.abs(got.ravel() - exp))) if ok_shape and n_in else 0.0
                 scale = 1 + float(onp.max(onp.abs(exp))) if n_in else 1.0
